@@ -1,6 +1,7 @@
 -- Root of the `UflVerif` library.  Model/* is Mathlib-free; Props/* hold the property theorems.
 import UflVerif.AuditCmd
 import UflVerif.Props.C05
+import UflVerif.Props.C06
 import UflVerif.Props.C13
 import UflVerif.Props.C19
 import UflVerif.Props.C19Dispatch
